@@ -246,6 +246,30 @@ func (a *App) Register(i int, g Reg) (err interface{}) {
 	return nil
 }
 
+// RegisterRoutes is Register through Routes(path, list): g.M is a comma list.
+func (a *App) RegisterRoutes(i int, g Reg) (err interface{}) {
+	defer func() {
+		if r := recover(); r != nil {
+			err = r
+		}
+	}()
+	idx := i
+	r := a.F.Routes(g.R, g.M, func(c flamego.Context) {
+		if a.cur != nil {
+			a.cur.Handler = idx
+			a.cur.Params = map[string]string{}
+			for k, v := range c.Params() {
+				a.cur.Params[k] = v
+			}
+		}
+		c.ResponseWriter().WriteHeader(http.StatusOK)
+	})
+	if len(g.H) > 0 {
+		r.Headers(g.H...)
+	}
+	return nil
+}
+
 // NewRequest builds a request whose URL.Path is exactly p.
 func NewRequest(method, p string, h http.Header) *http.Request {
 	if h == nil {
